@@ -429,16 +429,35 @@ def rule_V3(ctx):
     cvar = kvar = None
     gate_if = None
     for anc in vi.ancestors(cp["id"]):
-        if anc["k"] == "if":
-            for d in flatten_or(anc["c"]):
-                if is_call(d, "strchr") and strip_casts(d["args"][0])["k"] == "str":
-                    gate1 = strip_casts(d["args"][0])["v"]
-                    cvar = key(strip_casts(d["args"][1]))
-                    gate_if = anc
-                for cj in flatten_and(d):
-                    if is_call(cj, "strchr") and strip_casts(cj["args"][0])["k"] == "str" and d is not cj:
-                        gate2 = strip_casts(cj["args"][0])["v"]
-                        kvar = key(strip_casts(cj["args"][1]))
+        if anc["k"] != "if":
+            continue
+        # the membership tests of the condition, however it is bracketed: the set tested on the
+        # command letter, and the one tested on the second key next to `letter == 'g'`
+        sc = [x for x in walk(anc["c"]) if is_call(x, "strchr") and strip_casts(x["args"][0])["k"] == "str"]
+        if not sc:
+            continue
+        for x in sc:
+            mate = None
+            for up in vi.ancestors(x["id"]):
+                if up["id"] == anc["c"]["id"] or up["k"] != "bin" or up["op"] != "&&":
+                    if up["k"] == "bin" and up["op"] == "&&":
+                        pass
+                    else:
+                        break
+                for cj in flatten_and(up):
+                    if cj["k"] == "bin" and cj["op"] == "==" and cval(cj["r"]) is not None and cj is not x:
+                        mate = cj
+                if up["id"] == anc["c"]["id"]:
+                    break
+            if mate is not None and gate2 is None:
+                gate2 = strip_casts(x["args"][0])["v"]
+                kvar = key(strip_casts(x["args"][1]))
+            elif gate1 is None or len(strip_casts(x["args"][0])["v"]) > len(gate1):
+                gate1 = strip_casts(x["args"][0])["v"]
+                cvar = key(strip_casts(x["args"][1]))
+                gate_if = anc
+        if gate1 is not None:
+            break
     if gate1 is None:
         raise AnalysisBroken("vi(): repeat gate strchr(\"...\", c) not found")
     targets = ("lbuf_edit",)
